@@ -153,7 +153,7 @@ var badEnvEndpoint = []bad{
 var badOptEndpoint = []bad{
 	{"unparsable_url", "http://[::1", true}, // WithEndpointURL
 	{"unparsable_url", "http://{X}:x", true},
-	{"empty_endpoint", "", false},                 // WithEndpoint("")
+	{"empty_endpoint", "", false},                   // WithEndpoint("")
 	{"garbage_endpoint", "127.0.0.1:noport", false}, // WithEndpoint
 }
 
